@@ -385,7 +385,7 @@ def enc_authz_run(r):
 
 
 def enc_authz_exec(r):
-    rs = lst(r["in"]["reqs"], lambda q: "(%s, %s)" % (req_term(q), Z(q["spendable"])))
+    rs = lst(r["in"]["reqs"], lambda q: "(%s, %s, %s)" % (req_term(q), Z(q["spendable"]), b(q.get("exec_failed", False))))
     obs = lst(r["out"], lambda o: "(%s, %s, %s)" % (b(o["ok"]), state_term(o["state"]), Z(o["moved"])))
     return "AuthzExec %s %s %s" % (grant_term(r["in"]["grant"]), rs, obs)
 
